@@ -1,6 +1,7 @@
 package main
 
 import (
+	"fmt"
 	"slices"
 	"encoding/json"
 	"flag"
@@ -13,6 +14,8 @@ import (
 )
 
 // ---------------------------------------------------------------- random semantic configurations
+
+var c02Builds int
 
 var customMethods = []string{"PUT", "DELETE", "PATCH", "patch", "OPTIONS", "PURGE", "Put", "QUERY", "query", "M-SEARCH", "A_B", "a^b", "x",
 	"LONGMETHOD" + strings.Repeat("ABCDEFGHIJKLMNOP", 16)}
@@ -281,7 +284,14 @@ func cmdC02(args []string) {
 	for cells < *n {
 		s := randSem(rng)
 		cfg := s.spell(rng)
-		m, err := cors.NewMiddleware(*cfg)
+		c02Builds++
+		m := buildVia(*cfg, c02Builds) // every documented way of arriving at (cfg, debug off)
+		var err error
+		if m == nil {
+			if _, err = cors.NewMiddleware(*cfg); err == nil {
+				err = fmt.Errorf("accepted by NewMiddleware but rejected on the way number %d of buildVia", c02Builds%6)
+			}
+		}
 		noise(m)
 		if err != nil {
 			rejected++
@@ -413,7 +423,14 @@ func cmdC02Gen(args []string) {
 			s.Pats = []cPattern{{Scheme: "https", Host: "a.example"}}
 		}
 		cfg := s.spell(rng)
-		m, err := cors.NewMiddleware(*cfg)
+		c02Builds++
+		m := buildVia(*cfg, c02Builds) // every documented way of arriving at (cfg, debug off)
+		var err error
+		if m == nil {
+			if _, err = cors.NewMiddleware(*cfg); err == nil {
+				err = fmt.Errorf("accepted by NewMiddleware but rejected on the way number %d of buildVia", c02Builds%6)
+			}
+		}
 		noise(m)
 		if err != nil {
 			rejected++
